@@ -206,7 +206,7 @@ CHECKS["C03"] = dict(
          "exceeds or differs from the submitted prefix; annotations/UTC/user data are in-order selections of unaltered submitted items; for a stop between "
          "two complete writes with all definitions on disk the open succeeds, every call works and no more than the block in flight is lost (vs. the "
          "samples in complete DATA chunks of the image). JlsLinks.tla model-checks, per backend write, that after ANY prefix of writes every pointer on disk "
-         "is 0 or leads to a complete chunk. For signals without omitted blocks the statistics the reader reports on each image (single-window and entry-aligned requests) are compared with the samples it returned. Besides the randomly generated programs, the writer histories come from the state graph of JlsShapes.tla (every combination of present / absent tracks and amount classes; TLC dumps the graph, tools/shapes.py turns paths that take the (shape, call) pairs into programs for the real library). Tier B: JlsRepair.tla (jls_core_repair_fsr as a resumed JlsWriter.tla: replay of the chunks no index lists yet, top level first, then close) is model-checked on every crash image of the writer model (RepairOk: nothing altered, nothing pending, every reachable block listed and summarised exactly once, every sample found), and the FSR chunk sequence before / after every real repairing open of an image cut between two writes is compared with it (JlsRepairTrace.tla; deviation = MODEL-DRIFT).",
+         "is 0 or leads to a complete chunk. For signals without omitted blocks the statistics the reader reports on each image (single-window and entry-aligned requests) are compared with the samples it returned. Besides the randomly generated programs, the writer histories come from the state graph of JlsShapes.tla (every combination of present / absent tracks and amount classes; TLC dumps the graph, tools/shapes.py turns paths that take the (shape, call) pairs into programs for the real library). Tier B: JlsRepair.tla (jls_core_repair_fsr as a resumed JlsWriter.tla: replay of the chunks no index lists yet, top level first, then close) is model-checked on every crash image of the writer model (RepairOk: nothing altered, nothing pending, every reachable block listed and summarised exactly once, every sample found), and the FSR chunk sequence before / after every real repairing open of an image cut between two writes is compared with it (JlsRepairTrace.tla; deviation = MODEL-DRIFT). JlsTsRepair.tla (jls_track_repair_pointers on annotation / UTC tracks: top-down walk, cut behind the last good INDEX+SUMMARY / DATA chunk, head entries cleared) is model-checked on every image of the JlsTsWriter.tla chunk sequence - stop after any chunk, last chunk attached or not, and every truncation of the closed track (TsRepairOk: no list leads to a chunk the file does not hold, nothing linked is lost; TsEntriesOk) - and the links of every annotation / UTC track before / after each real repairing open (crash and truncation images) must be the ones it predicts (JlsTsRepairTrace.tla; deviation = MODEL-DRIFT). Every image that opens also reports where the links a reader can follow lead (head-table entries, item_next of reachable chunks): JlsCrash!LinksLead demands the same list and forward (C19).",
     design_ref="DESIGN.md section 6 C03, section 12",
     note="Trusted: as C01 plus the crash model (file = byte prefix of the write stream). Known findings C03-K1 (repair skips blocks that exist only as "
          "summaries) and C19-K1 (torn in-place header stays corrupt) are classified structurally and reported.",
@@ -217,7 +217,7 @@ CHECKS["C19"] = dict(
     text=_CRASH + "C19: (a) every properly closed file of the corpus is opened and read (definitions, windows, annotations, UTC, user data) and TLC requires it to be "
          "byte-identical afterwards with no backend write at all; (b) every crash image that opens is opened a second and a third time: TLC requires no write, "
          "no change, identical observations, and - when the first open repaired the image - a well-formed closed file (header length = size, forward walk to "
-         "END, all CRCs). Besides the randomly generated programs, the writer histories come from the state graph of JlsShapes.tla (every combination of present / absent tracks and amount classes; TLC dumps the graph, tools/shapes.py turns paths that take the (shape, call) pairs into programs for the real library). Tier B: JlsRepair.tla (jls_core_repair_fsr as a resumed JlsWriter.tla: replay of the chunks no index lists yet, top level first, then close) is model-checked on every crash image of the writer model (RepairOk: nothing altered, nothing pending, every reachable block listed and summarised exactly once, every sample found), and the FSR chunk sequence before / after every real repairing open of an image cut between two writes is compared with it (JlsRepairTrace.tla; deviation = MODEL-DRIFT).",
+         "END, all CRCs). Besides the randomly generated programs, the writer histories come from the state graph of JlsShapes.tla (every combination of present / absent tracks and amount classes; TLC dumps the graph, tools/shapes.py turns paths that take the (shape, call) pairs into programs for the real library). Tier B: JlsRepair.tla (jls_core_repair_fsr as a resumed JlsWriter.tla: replay of the chunks no index lists yet, top level first, then close) is model-checked on every crash image of the writer model (RepairOk: nothing altered, nothing pending, every reachable block listed and summarised exactly once, every sample found), and the FSR chunk sequence before / after every real repairing open of an image cut between two writes is compared with it (JlsRepairTrace.tla; deviation = MODEL-DRIFT). JlsTsRepair.tla (jls_track_repair_pointers on annotation / UTC tracks: top-down walk, cut behind the last good INDEX+SUMMARY / DATA chunk, head entries cleared) is model-checked on every image of the JlsTsWriter.tla chunk sequence - stop after any chunk, last chunk attached or not, and every truncation of the closed track (TsRepairOk: no list leads to a chunk the file does not hold, nothing linked is lost; TsEntriesOk) - and the links of every annotation / UTC track before / after each real repairing open (crash and truncation images) must be the ones it predicts (JlsTsRepairTrace.tla; deviation = MODEL-DRIFT). Every image that opens also reports where the links a reader can follow lead (head-table entries, item_next of reachable chunks): JlsCrash!LinksLead demands the same list and forward (C19).",
     design_ref="DESIGN.md section 6 C19, section 12",
     note="Trusted: as C03. Known finding C19-K1: a stop inside an in-place 32-byte header rewrite leaves a corrupt header that repair does not mend.",
     technique="TLC trace validation of repeated opens of closed files and crash images against a TLA+ convergence contract",
